@@ -527,7 +527,7 @@ def ps_wf(s):
             ("no-uncertain-variable-listed-twice", fa([i, j], z3.Implies(z3.And(0 <= i, i < j, j < u.n), u.elems[i] != u.elems[j]), z3.MultiPattern(u.elems[i], u.elems[j])))]
 
 
-_PS_OWN = ("kept:uncertain_variables", "kept:distributions", "kept:distribution", "kept:family")
+_PS_OWN = ("kept:uncertain_variables", "kept:distributions", "kept:distribution", "kept:family", "kept:definitions")
 
 
 def ps_kept(s0, s1, *except_fields):
@@ -541,9 +541,12 @@ def ps_kept(s0, s1, *except_fields):
         out.append(("kept:distributions", z3.And(DD(s1).n == DD(s0).n, z3.ForAll([k], z3.And(DD(s1).has(k) == DD(s0).has(k), z3.Implies(DD(s0).has(k), DD(s1).get(k) == DD(s0).get(k)))))))
     if "distribution" not in except_fields:
         out.append(("kept:distribution", s1.distribution == s0.distribution))
-    fam = "_ParameterSpace__distribution_family_id"
+    fam, defs = "_ParameterSpace__distribution_family_id", "_ParameterSpace__uncertain_variables_to_definitions"
     if fam not in except_fields:
         out.append(("kept:family", getattr(s1, fam) == getattr(s0, fam)))
+    if defs not in except_fields:
+        e0, e1 = getattr(s0, defs), getattr(s1, defs)
+        out.append(("kept:definitions", z3.And(e1.n == e0.n, z3.ForAll([k], z3.And(e1.has(k) == e0.has(k), z3.Implies(e0.has(k), e1.get(k) == e0.get(k)))))))
     return out
 
 
@@ -1533,3 +1536,226 @@ class ComputeSamplesDicts(Contract):
         g1 = c.new_ghost
         drawn = g1("c19_joint_draw_values", F2.sort())
         return [("n-rows", F2.dim(drawn, 0) == c.old.n_samples)] + one_joint_draw(c, c.old.n_samples, drawn) + _rows_spec(c, c.result, drawn)
+
+
+# ---------------------------------------------------------------------------- renaming a variable
+_on_parameter_space(DS2.RenameVariable, "DesignSpace.rename_variable on a parameter space: the C02 postcondition (assumed: proved under C02 on the same body) + the fields of "
+                    "ParameterSpace are untouched (proved).", reprove=False)
+_DS_HELPERS[DS + ".rename_variable"] = "c19"
+DEFS = "_ParameterSpace__uncertain_variables_to_definitions"
+
+
+def joint_positional(c, s, new=True):
+    """Marginal block i of the joint distribution of all uncertain variables is the distribution of uncertain_variables[i]: `distribution` was built from a
+    list of as many names, whose i-th recorded distribution is the distribution of the i-th uncertain variable of s (names may have been renamed since)."""
+    gn, gd = joint_ghosts(c, new=new)
+    u, d = UV(s), DD(s)
+    i = z3.Int("i!jp")
+    gel, gmem, gvals = NAMES.dt.accessor(0, 1)(gn), DISTS.acc(0)(gd), DISTS.acc(1)(gd)
+    return [("joint:built-from-the-recorded-variables", s.distribution == full_joint(gn, gd)),
+            ("joint:as-many-blocks-as-uncertain-variables", NAMES.dt.accessor(0, 0)(gn) == u.n),
+            ("joint:block-i-is-the-distribution-of-uncertain-variable-i", fa([i], z3.Implies(z3.And(0 <= i, i < u.n), z3.And(gmem[gel[i]], gvals[gel[i]] == d.get(u.elems[i]))), u.elems[i]))]
+
+
+@register
+class RenameVariable(Contract):
+    """The C02 postcondition of DesignSpace.rename_variable (renamed in place in the design space) AND, for an uncertain variable: uncertain_variables keeps its
+    length and order with the name replaced AT THE SAME POSITION, its distribution is re-keyed (the others kept), the parameter-space invariant is kept and -
+    the joint distribution of all uncertain variables not being rebuilt - its marginal block i is still the distribution of uncertain_variables[i]."""
+
+    targets = (PS + ".rename_variable",)
+    prop = ("C19",)
+    c19 = True
+    callee_variants = _DS_HELPERS
+    params = {"current_name": TStr, "new_name": TStr}
+    modifies = ("self",)
+    raises = {"ValueError": lambda c: z3.Not(DS2.V(c.old.self).has(c.old.current_name))}
+
+    def requires(self, c):
+        s = c.old.self
+        u, defs = UV(s), getattr(s, DEFS)
+        i = z3.Int("i!rq")
+        return DS2.wf(s) + ps_wf(s) + [
+            ("new-name-is-free", z3.Or(z3.Not(DS2.V(s).has(c.old.new_name)), c.old.new_name == c.old.current_name)),
+            # established by add_random_vector (`self.__uncertain_variables_to_definitions[name] = ...`, a statement the model of add_random_vector skips)
+            ("uncertain-variables-have-a-definition", fa([i], z3.Implies(z3.And(0 <= i, i < u.n), defs.has(u.elems[i])), u.elems[i]))] + \
+            [(f"entry:{l}", z3.Implies(u.n > 0, f)) for l, f in joint_positional(c, s, new=False)]
+
+    def axioms(self, c):
+        return DS2.derived_wf(c.old.self)
+
+    def ensures(self, c):
+        s0, s1 = c.old.self, c.new.self
+        a, b = c.old.current_name, c.old.new_name
+        u0, u1, d0, d1 = UV(s0), UV(s1), DD(s0), DD(s1)
+        was = in_list(u0, a)
+        i, k = z3.Int("i!rn"), z3.Const("k!rn", StrS)
+        c02 = [(f"design-space:{l}", f) for l, f in DS2.RenameVariable.ensures(self, c)]
+        return c02 + ps_wf(s1) + [
+            ("uncertain-variables:renamed-at-the-same-position", z3.And(u1.n == u0.n, fa([i], z3.Implies(z3.And(0 <= i, i < u0.n), u1.elems[i] == z3.If(u0.elems[i] == a, b, u0.elems[i])),
+                                                                                        u0.elems[i]))),
+            ("distributions:re-keyed", z3.ForAll([k], d1.has(k) == z3.Or(z3.And(d0.has(k), z3.Or(k != a, z3.Not(was))), z3.And(k == b, was)))),
+            ("distributions:values", z3.And(z3.Implies(was, d1.get(b) == d0.get(a)), z3.ForAll([k], z3.Implies(z3.And(d0.has(k), k != a, z3.Or(k != b, z3.Not(was))), d1.get(k) == d0.get(k))))),
+            ("joint-distribution-not-rebuilt", s1.distribution == s0.distribution),
+        ] + [(l, z3.Implies(u0.n > 0, f)) for l, f in joint_positional(c, s1)]
+
+
+# ---------------------------------------------------------------------------- log-normal distributions: (mean, std, location) -> parameters of the logarithm
+from pyvc.npmodel import np_exp, np_log, np_sqrt  # noqa: E402
+from pyvc.values import TTuple  # noqa: E402
+
+LNU = U + "_log_normal_utils.compute_mu_l_and_sigma_l"
+
+
+def _ln_terms(mu, sigma, location):
+    m = mu - location
+    ratio = sigma / m
+    q = ratio * ratio + 1  # 1 + (coefficient of variation of the unshifted variable)^2
+    return m, q
+
+
+def ln_mu_l(mu, sigma, location):
+    m, q = _ln_terms(mu, sigma, location)
+    return np_log(m) - np_log(q) / 2
+
+
+def ln_sigma_l(mu, sigma, location):
+    m, q = _ln_terms(mu, sigma, location)
+    return np_sqrt(np_log(q))
+
+
+def _ln_axioms(mu, sigma, location):
+    """Ground instances, at the terms of compute_mu_l_and_sigma_l, of the usual axioms of the (uninterpreted) log and sqrt (m = mu - location > 0)."""
+    m, q = _ln_terms(mu, sigma, location)
+    r = np_sqrt(q)
+    t = np_log(q)
+    pos = m > 0
+    return [("sqrt:square-root-of-a-positive-number", z3.Implies(q >= 1, z3.And(r * r == q, r > 0))),
+            ("log:quotient", z3.Implies(pos, np_log(m / r) == np_log(m) - np_log(r))),
+            ("log:square-root", z3.Implies(pos, 2 * np_log(r) == np_log(q))),
+            ("log:non-negative-from-one", z3.Implies(q >= 1, t >= 0)),
+            ("sqrt:squares-back", z3.Implies(t >= 0, z3.And(np_sqrt(t) * np_sqrt(t) == t, np_sqrt(t) >= 0)))]
+
+
+@register
+class ComputeMuLAndSigmaL(Contract):
+    """For m = mu - location > 0 and c = sigma / m (coefficient of variation of the UNSHIFTED variable X - location):
+      sigma_l^2 = log(1 + c^2),  sigma_l >= 0,  mu_l = log(m) - sigma_l^2 / 2
+    i.e. (LogNormalMomentLemmas) the log-normal law with these parameters of the logarithm, shifted by `location`, has mean mu and standard deviation sigma.
+    log / sqrt are uninterpreted (ground instances of their usual axioms); ZeroDivisionError only when mu == location."""
+
+    targets = (LNU,)
+    prop = ("C19",)
+    c19 = True
+    numpy = "precise"
+    params = {"mu": TReal, "sigma": TReal, "location": TReal}
+    returns = TTuple(TReal, TReal)
+    raises = {"ZeroDivisionError": lambda c: c.old.mu == c.old.location}
+
+    def axioms(self, c):
+        return _ln_axioms(c.old.mu, c.old.sigma, c.old.location)
+
+    def ensures(self, c):
+        mu, sigma, loc = c.old.mu, c.old.sigma, c.old.location
+        m, q = _ln_terms(mu, sigma, loc)
+        mu_l, sigma_l = c.result_value
+        mu_l, sigma_l = mu_l.term, sigma_l.term
+        pos = m > 0
+        return [("sigma_l-squared-is-log-of-one-plus-squared-coefficient-of-variation", z3.Implies(pos, z3.And(sigma_l * sigma_l == np_log(q), sigma_l >= 0))),
+                ("mu_l-is-log-of-shifted-mean-minus-half-sigma_l-squared", z3.Implies(pos, mu_l == np_log(m) - sigma_l * sigma_l / 2)),
+                ("explicit:mu_l", z3.Implies(pos, mu_l == ln_mu_l(mu, sigma, loc))),
+                ("explicit:sigma_l", z3.Implies(pos, sigma_l == ln_sigma_l(mu, sigma, loc)))]
+
+
+@register
+class LogNormalMomentLemmas(Contract):
+    """With s2 = sigma_l^2 = log(1 + (sigma/m)^2) and mu_l = log(m) - s2/2 (postcondition above), m = mu - location > 0, and the usual axioms of exp / log
+    (exp(log t) = t for t > 0, exp(a + b) = exp(a) exp(b)): location + exp(mu_l + s2/2) = mu (mean of the shifted log-normal law) and
+    (exp(s2) - 1) exp(2 mu_l + s2) = sigma^2 (its variance)."""
+
+    targets = ()
+    prop = ("C19",)
+    lemma = True
+
+    def lemmas(self):
+        mu, sigma, loc, mu_l, s2 = z3.Reals("mu sigma location mu_l s2")
+        m, q = _ln_terms(mu, sigma, loc)
+        hyp = z3.And(m > 0, s2 == np_log(q), mu_l == np_log(m) - s2 / 2,
+                     np_exp(np_log(m)) == m, np_exp(np_log(q)) == q,  # exp(log t) = t, t > 0
+                     np_exp(np_log(m) + np_log(m)) == np_exp(np_log(m)) * np_exp(np_log(m)))  # exp(a + b) = exp(a) exp(b)
+        return [("mean-of-the-shifted-log-normal-law", z3.Implies(hyp, loc + np_exp(mu_l + s2 / 2) == mu)),
+                ("variance-of-the-shifted-log-normal-law", z3.Implies(hyp, (np_exp(s2) - 1) * np_exp(2 * mu_l + s2) == sigma * sigma))]
+
+
+schema(OTD + "#init", _SCALAR_INIT)
+# what OTDistribution(...) was asked to create (ghost record of the last construction): name and positional parameters
+declare_ghost("c19_ot_init_name", StrS)
+declare_ghost("c19_ot_init_parameters", ARGS.sort())
+
+
+@register
+class OTInit(Contract):
+    targets = (OTD + ".__init__",)
+    prop = ("C19",)
+    trusted = True
+    self_schema = OTD + "#init"
+    description = ("assumed (heterogeneous **options forwarding through BaseDistribution.__init__ is outside the engine's subset): OTDistribution(name, parameters, ...) creates the "
+                   "wrapped object through _create_distribution(name, parameters, transformation, lower_bound, upper_bound, threshold) - VERIFIED (OTCreate) - with exactly this name "
+                   "and these positional parameters, recorded in the ghosts c19_ot_init_*; ValueError / ImportError from the library")
+    params = {"interfaced_distribution": TStr}
+    modifies = ("self", "ghost:c19_ot_init_name", "ghost:c19_ot_init_parameters")
+    raises = {"ImportError": None, "ValueError": None}
+
+    def ensures(self, c):
+        p = c.arg("parameters")
+        return [("recorded", z3.And(c.new_ghost("c19_ot_init_name", StrS) == sterm(c.old.interfaced_distribution),
+                                    c.new_ghost("c19_ot_init_parameters", ARGS.sort()) == ARGS.embed(c.st, p)))]
+
+
+def _ln_params(c):
+    mu, sigma, loc, sl = c.old.mu, c.old.sigma, c.old.location, bv(c.old.set_log)
+    return z3.If(sl, mu, ln_mu_l(mu, sigma, loc)), z3.If(sl, sigma, ln_sigma_l(mu, sigma, loc)), loc, z3.Or(sl, mu - loc > 0)
+
+
+class _LogNormal(_Wrap):
+    params = {"mu": TReal, "sigma": TReal, "location": TReal, "set_log": TBool}
+    raises = {"ImportError": None, "ValueError": None, "ZeroDivisionError": lambda c: z3.And(z3.Not(bv(c.old.set_log)), c.old.mu == c.old.location)}
+
+    def axioms(self, c):
+        return _ln_axioms(c.old.mu, c.old.sigma, c.old.location)
+
+
+@register
+class SPLogNormal(_LogNormal):
+    """SPLogNormalDistribution(mu, sigma, location, set_log) = scipy.stats.lognorm(s=sigma_l, loc=location, scale=exp(mu_l)) where (mu_l, sigma_l) = (mu, sigma) when
+    set_log, the parameters of the logarithm computed by compute_mu_l_and_sigma_l(mu, sigma, location) otherwise (stated for mu > location)."""
+
+    targets = (U + "scipy.log_normal.SPLogNormalDistribution.__init__",)
+    self_schema = SPD + "#init"
+    modifies = ("self",)
+
+    def ensures(self, c):
+        mu_l, sigma_l, loc, ok = _ln_params(c)
+        kw = created_kw(D(c.new.self))
+        mem, vals = KWR.acc(0)(kw), KWR.acc(1)(kw)
+        k = z3.Const("k!ln", StrS)
+        return [("scipy-name", _made_from(D(c.new.self), "scipy.stats", "lognorm")),
+                ("exactly-these-keywords", z3.ForAll([k], mem[k] == z3.Or(k == str_lit("s"), k == str_lit("loc"), k == str_lit("scale")))),
+                ("keywords", z3.Implies(ok, z3.And(vals[str_lit("s")] == sigma_l, vals[str_lit("loc")] == loc, vals[str_lit("scale")] == np_exp(mu_l))))]
+
+
+@register
+class OTLogNormal(_LogNormal):
+    """OTLogNormalDistribution(mu, sigma, location, set_log) = openturns.LogNormal(mu_l, sigma_l, location), same (mu_l, sigma_l) as the SciPy-based class."""
+
+    targets = (U + "openturns.log_normal.OTLogNormalDistribution.__init__",)
+    self_schema = OTD + "#init"
+    modifies = ("self", "ghost:c19_ot_init_name", "ghost:c19_ot_init_parameters")
+
+    def ensures(self, c):
+        mu_l, sigma_l, loc, ok = _ln_params(c)
+        p = c.new_ghost("c19_ot_init_parameters", ARGS.sort())
+        n, els = ARGS.dt.accessor(0, 0)(p), ARGS.dt.accessor(0, 1)(p)
+        return [("openturns-name", c.new_ghost("c19_ot_init_name", StrS) == str_lit("LogNormal")),
+                ("three-positional-parameters", n == 3),
+                ("parameters", z3.Implies(ok, z3.And(els[0] == mu_l, els[1] == sigma_l, els[2] == loc)))]
